@@ -97,7 +97,7 @@ prop("C11", "proof", "DP optimality over stored edges proved in Lean (with the l
      "edge completeness w.r.t. the suffix array is a named hypothesis until discharged", GEN_RULE, "§8 C11")
 prop("C12", "proof", "rank-neighbour maximality (sandwich lemma) proved in Lean; GSAP loop modelled exactly; bitset word layout tied to the set model; brute-force longest-match oracle",
      "Lean 4 proof (neighbour maximality) + differential correspondence + brute-force oracle",
-     [S("p-gsap", 300, 5000, ["gsap.match.checked", "gsap.literal.checked", "gsap.after-shrink", "p.midsa"]), S("u-units", 100, 1500, ["u.bitset.clear"])],
+     [S("p-gsap", 300, 5000, ["gsap.match.checked", "gsap.literal.checked", "gsap.after-shrink", "p.midsa"]), S("u-units", 100, 1500, ["u.bitset.clear"]), S("p-nil-GSAP", 60, 1000, ["p.parsenil.data", "p.parse.matches"])],
      "histories without Parse(nil) as the property states", GEN_RULE, "§8 C12")
 prop("C13", "proof", "Reset clears every search structure in the model (tied by correspondence on post-Reset behaviour and twin comparison with a fresh parser); no shared mutable state is a decide-d fact over the regenerated package variables",
      "Lean 4 facts over regenerated source data + twin-parser differential runs",
